@@ -468,8 +468,28 @@ def run_scenario(sc: Dict[str, Any], scratch: pathlib.Path, opts: Dict[str, Any]
 # ---------------------------------------------------------------------------------------------
 
 
-def _worker(args: Tuple[int, List[Dict[str, Any]], str, Dict[str, Any]]) -> List[Dict[str, Any]]:
-    idx, scs, workdir, opts = args
+WARM_SCENARIO: Dict[str, Any] = {
+    "fam": "pat", "kind": "cprim_str", "L": 2, "pa": 1, "opt": False, "atoms": [{"src": "own", "tgt": "val", "op": ">=", "c": 1, "side": "L"}],
+    "pats": [{"src": "cprim", "tgt": "val", "tree": {"k": "rep", "c": 0, "e": "raw", "neg": False, "rs": [], "lo": 1, "hi": -1,
+                                                          "xs": [{"k": "lit", "c": 97, "e": "raw", "neg": False, "rs": [], "xs": [], "lo": 0, "hi": 0}]}},
+             {"src": "own", "tgt": "val", "tree": {"k": "rep", "c": 0, "e": "raw", "neg": False, "rs": [], "lo": 1, "hi": 2,
+                                                        "xs": [{"k": "dot", "c": 0, "e": "raw", "neg": False, "rs": [], "xs": [], "lo": 0, "hi": 0}]}}],
+    "alpha": [97, 113], "feat": [], "id": 0}
+
+_STATE: Dict[str, Any] = {"start": None, "scratch": None}
+
+
+def _warm_up(scratch: pathlib.Path, opts: Dict[str, Any]) -> None:
+    """One tiny scenario, run completely (generators, greenery, xmlschema meta-schemas): loads everything once."""
+    warm_opts = {k: v for k, v in opts.items() if k not in ("deadline", "budget")}
+    warm_obs = run_scenario(WARM_SCENARIO, scratch / "warm", warm_opts)
+    if warm_obs.get("gen") != "ok" or not warm_obs.get("vals"):
+        raise RuntimeError("warm-up scenario did not run: %r" % {k: warm_obs.get(k) for k in ("gen", "detail", "load_err")})
+
+
+def _init_worker(workdir: str, opts: Dict[str, Any], start: Any) -> None:
+    """Pool initializer: private scratch + TMPDIR, warm-up in the worker itself (the first scenario of a fresh process is
+    much slower than the following ones), then the clock of the budget starts (first worker that is ready sets it)."""
     import tempfile
     import time
 
@@ -478,9 +498,35 @@ def _worker(args: Tuple[int, List[Dict[str, Any]], str, Dict[str, Any]]) -> List
     tmp.mkdir(parents=True, exist_ok=True)
     os.environ["TMPDIR"] = str(tmp)
     tempfile.tempdir = None
-    deadline = opts.get("deadline")
+    _STATE["scratch"] = scratch
+    _STATE["start"] = start
+    try:
+        _warm_up(scratch, opts)
+    except Exception:
+        _STATE["warm_error"] = traceback.format_exc()[-1500:]
+    if start is not None:
+        with start.get_lock():
+            if start.value == 0.0:
+                start.value = time.time()
+
+
+def _worker(args: Tuple[int, List[Dict[str, Any]], str, Dict[str, Any]]) -> List[Dict[str, Any]]:
+    idx, scs, workdir, opts = args
+    import time
+
+    if _STATE["scratch"] is None:  # single-process mode
+        _init_worker(workdir, opts, None)
+    scratch = _STATE["scratch"]
+    start = _STATE["start"]
+    deadline = None
+    if opts.get("budget") is not None:
+        t0 = start.value if start is not None and start.value > 0 else _STATE.setdefault("t0", time.time())
+        deadline = t0 + float(opts["budget"])
     out = []
     for sc in scs:
+        if _STATE.get("warm_error"):
+            out.append({"harness_error": "warm-up failed: " + _STATE["warm_error"], "id": sc.get("id", 0)})
+            continue
         if deadline is not None and time.time() > deadline:
             out.append({"skipped": True, "id": sc.get("id", 0)})
             continue
@@ -492,17 +538,25 @@ def _worker(args: Tuple[int, List[Dict[str, Any]], str, Dict[str, Any]]) -> List
 
 
 def run_all(scenarios: List[Dict[str, Any]], workdir: pathlib.Path, opts: Dict[str, Any], procs: int = 8) -> List[Dict[str, Any]]:
-    """Scenarios are handed out in order, in small jobs, so that a deadline cuts off a suffix of the (stratified) list."""
+    """Scenarios are handed out in order, in small jobs, so that the deadline (budget seconds after the first worker
+    is warmed up) cuts off a suffix of the (stratified) list."""
     import multiprocessing
 
     procs = max(1, min(procs, 8, len(scenarios)))
     size = 4
+    # load the heavy modules once in the parent (inherited by the forked workers)
+    import xmlschema  # noqa: F401
+    from aas_core_codegen import main as _cg_main  # noqa: F401
+    import aas_core_codegen.python.main  # noqa: F401
+    import aas_core_codegen.xsd.main  # noqa: F401
+
     jobs = [(q, scenarios[q : q + size], str(workdir), opts) for q in range(0, len(scenarios), size)]
     if procs == 1:
         results = [_worker(j) for j in jobs]
     else:
         ctx = multiprocessing.get_context("fork")
-        with ctx.Pool(procs) as pool:
+        start = ctx.Value("d", 0.0)
+        with ctx.Pool(procs, initializer=_init_worker, initargs=(str(workdir), opts, start)) as pool:
             results = list(pool.imap(_worker, jobs, chunksize=1))
     flat = [o for res in results for o in res]
     flat.sort(key=lambda o: o["id"])
